@@ -645,6 +645,8 @@ pub(crate) async fn fashare(
         d1[r] = d0[r] ^ delta.0;
         #[cfg(feature = "__verif")]
         crate::verif::tap_bytes("fashare_dm", r, &mut dm);
+        #[cfg(feature = "__verif")]
+        crate::verif::tap_vec("fashare_dm_vec", r, &mut dm);
         let c0 = commit(&d0[r].to_be_bytes());
         let c1 = commit(&d1[r].to_be_bytes());
         let cm = commit(&dm);
